@@ -17,6 +17,8 @@ import (
 func init() {
 	register(&Rule{Name: "ASN1-CERT", Floor: 8, Run: ruleAsn1Cert,
 		Doc: "the struct handed to asn1.Marshal where a CERTIFICATE block is written has the field order, universal types, tags, EXPLICIT/OPTIONAL/DEFAULT markers of RFC 5280 4.1 (Certificate, TBSCertificate, Validity, SubjectPublicKeyInfo)"})
+	register(&Rule{Name: "ASN1-CSR", Floor: 6, Run: ruleAsn1Csr,
+		Doc: "the struct handed to asn1.Marshal where a CERTIFICATE REQUEST block is written has the shape of RFC 2986 with subject and attributes carried as the raw elements of the file in file order (no decoded Name, no slice marked `set`, which encoding/asn1 sorts when it writes: the signature of a stored request is over the bytes as they were), and the value the PEM reader decodes a request into has that same type"})
 	register(&Rule{Name: "ASN1-EXT", Floor: 6, Run: ruleAsn1Ext,
 		Doc: "the structs marshalled by the extension constructors (AuthorityKeyIdentifier, BasicConstraints, PolicyInformation, PolicyQualifierInfo, UserNotice, NoticeReference) have the shapes of RFC 5280 4.2.1; an OPTIONAL INTEGER without pointer whose value comes from a parameter cannot express a configured zero"})
 	register(&Rule{Name: "ASN1-PKCS8", Floor: 4, Run: ruleAsn1Pkcs8,
@@ -303,6 +305,51 @@ func ruleAsn1Cert(c *Ctx, r *Rep) {
 		}
 		r.Check(n == 1, "tbs-marshal-once", c.FnPos(fn), "the signing function marshals exactly one value (the TBSCertificate)", sprintf("%d", n))
 	}
+}
+
+func ruleAsn1Csr(c *Ctx, r *Rep) {
+	pw, _ := c.pemWrites()
+	done := map[*ssa.Function]bool{}
+	var written []types.Type
+	for _, w := range pw {
+		if w.typ != "CERTIFICATE REQUEST" || done[w.fn] {
+			continue
+		}
+		done[w.fn] = true
+		for _, ci := range callsIn(w.fn) {
+			if calleeFullName(ci) == "encoding/asn1.Marshal" {
+				t := marshalArgType(ci)
+				written = append(written, t)
+				compareShape(c, r, t, "CertificationRequest", nil, map[string]bool{})
+				r.Ok("marshal-site|"+c.FuncKey(w.fn), c.Pos(ci.Pos()), "asn1.Marshal of the request value feeds the CERTIFICATE REQUEST block", typeShort(c, t))
+			}
+		}
+	}
+	if len(written) == 0 {
+		r.Undecided("anchor:request-writer", "", "no function writes a CERTIFICATE REQUEST block from asn1.Marshal")
+		return
+	}
+	// the reader decodes into the type the writer encodes
+	same := false
+	var got []string
+	for _, fn := range c.Funcs {
+		for _, ci := range callsIn(fn) {
+			if calleeFullName(ci) != "encoding/asn1.Unmarshal" || len(ci.Common().Args) < 2 {
+				continue
+			}
+			pt, ok := unwrapIface(ci.Common().Args[1]).Type().Underlying().(*types.Pointer)
+			if !ok {
+				continue
+			}
+			for _, wt := range written {
+				if types.Identical(pt.Elem(), wt) {
+					same = true
+					got = append(got, c.FuncKey(fn))
+				}
+			}
+		}
+	}
+	r.Check(same, "reader-decodes-written-type", "", "some asn1.Unmarshal in the module decodes into "+typeShort(c, written[0]), strings.Join(got, ","))
 }
 
 // constructorsStoring lists cert-package functions that store the given OID into pkix.Extension.Id.
